@@ -186,4 +186,18 @@ PROPS['C15'] = {
                   'operators with recording transforms and recorded entropy reads. Frequencies: partial.',
 }
 
+PROPS['C05'] = {
+    'requires': [], 'search': 'C05',
+    'trusted_base': ['coq/model/Labels.v is hand-written (dict manipulation of DataProcessor is outside the translator); '
+                     'tied to the code by the implementation-side differential search (survivors identified by an id '
+                     'smuggled in as an inline field, labels of mixed Python types)'],
+    'assumptions': ['a transform acts on annotations as map-on-geometry + filter (DualTransform.apply_to_bboxes / '
+                    'apply_to_keypoints; CoarseDropout.apply_to_keypoints is a filter)'],
+    'level_text': 'labels_follow and order preservation are proved for every pipeline of geometry maps and filters, any '
+                  'number of label fields, any inline trailing fields and any label type (polymorphic); the model is '
+                  'hand-written and validated against Compose on pipelines that drop annotations from the middle.',
+    'level_note': 'Trusted: Coq kernel, the hand-written Labels model (validated by differential search). Known '
+                  'finding: label_fields shared by additional targets.',
+}
+
 NOT_CLAIMED = {}
